@@ -21,7 +21,7 @@ func TestProp(t *testing.T) {
 	r := evid.New(t, "C02", cfg)
 	addHistory(r)
 	addStress(r, 0, 0) // not run here (TestRace does); registered so that stress replay files can be replayed
-	addStall(r) // thorough tier only
+	addStall(r)        // thorough tier only
 	r.Main()
 }
 
